@@ -241,7 +241,15 @@ func TestVerifC08(t *testing.T) {
 	}
 }
 
+// after a few runs that hang or deadlock the rest of the batch is skipped: each hang costs
+// the step timeout, and the verdict is already clear
+var c08Stuck int
+
 func c08One(t *testing.T, run *c08Run) {
+	if c08Stuck >= 6 {
+		rt.Out(rt.M{"kind": "result", "run": run.ID, "family": run.Family, "status": "skipped", "steps": 0, "schedule": []string{}})
+		return
+	}
 	base := t.TempDir()
 	if run.DirDate {
 		base = filepath.Join(base, "backup-"+c08WeekDate[1])
@@ -599,5 +607,8 @@ func c08One(t *testing.T, run *c08Run) {
 	}
 	sort.Strings(names)
 	fin["localdir"] = names
+	if status == "hang" || status == "deadlock" || status == "livelock" {
+		c08Stuck++
+	}
 	emit("result", fin)
 }
